@@ -131,7 +131,7 @@ def gen_C14(ctx, n):
             cfg["FPS"] = {"class": "FundamentalPriceShock", "target": rng.choice(mk),
                           "triggerTime": rng.choice([0, 0, 1, rng.randint(0, steps - 1)]) if force_fps else rng.randint(0, steps - 1),
                           "priceChangeRate": rng.choice([-0.1, 0.05, 0.3, -0.5]),
-                          "shockTimeLength": rng.choice([1, 1, 2, 3, steps + 3]), "enabled": rng.random() < 0.85}
+                          "shockTimeLength": rng.choice([1, 1, 2, 3, steps + 3, 0]), "enabled": rng.random() < 0.85}
             ev.append("FPS")
         if rng.random() < 0.7 or not ev:
             cfg["OMS"] = {"class": "OrderMistakeShock", "target": rng.choice(mk),
